@@ -108,6 +108,8 @@ Definition slice_step (v : value) (start stop step : Z) : outcome value :=
     match norm_step (zlen a) start stop step with
     | None => Ok (VArr [])
     | Some (i, n) =>
+      (* a zero step reaches the division c / s with s = 0 (the parser never produces it) *)
+      if step =? 0 then Panic PDivZero else
       if (n <? 0) || (n >? MaxInt) then Panic PMakeLen else
       do r <- pick a (Z.to_nat n) i step; Ok (VArr r)
     end
@@ -117,6 +119,7 @@ Definition slice_step (v : value) (start stop step : Z) : outcome value :=
     match norm_step l start stop step with
     | None => Ok (VStr [])
     | Some (i, n) =>
+      if step =? 0 then Panic PDivZero else
       if step >? 0 then Ok (VStr (encode_all (pick_default rs (Z.to_nat n) i step)))
       else
         let back := skipn (Z.to_nat (l - 1 - i)) (runes_rev s) in
